@@ -77,3 +77,34 @@ func collectionCorpus(thorough bool) []*ref.G {
 	}
 	return out
 }
+
+// bigCorpus holds geometries whose coordinate arrays straddle plausible internal chunk sizes
+// (512 / 1024 floats, 4 KiB / 8 KiB / 64 KiB buffers): decoders and encoders that switch to a
+// chunked path only above a threshold behave differently there.
+func bigCorpus(huge bool) []*ref.G {
+	var out []*ref.G
+	for _, n := range []int{257, 513, 700, 1025} {
+		out = append(out, ref.NewLine(ref.LineString, geom.XY, n, ref.Counter()))
+	}
+	out = append(out,
+		ref.NewLine(ref.LineString, geom.XYZM, 129, ref.Counter()),
+		ref.NewLine(ref.LineString, geom.XYZM, 300, ref.Counter()),
+		ref.NewLine(ref.LineString, geom.XYZ, 342, ref.Counter()),
+		ref.NewParts(ref.Polygon, geom.XYZ, []int{400}, ref.Counter()),
+		ref.NewParts(ref.Polygon, geom.XY, []int{300, 5, 0, 530}, ref.Counter()),
+		ref.NewParts(ref.MultiLineString, geom.XYM, []int{600, 0, 2}, ref.Counter()),
+		ref.NewMultiPolygon(geom.XY, [][]int{{520}, {3}, {}, {2, 515}}, ref.Counter()),
+	)
+	pat := make([]int, 300)
+	for i := range pat {
+		pat[i] = 1
+		if i%37 == 5 {
+			pat[i] = 0
+		}
+	}
+	out = append(out, ref.NewMultiPoint(geom.XY, pat, ref.Counter()))
+	if huge {
+		out = append(out, ref.NewLine(ref.LineString, geom.XY, 33000, ref.Counter()), ref.NewParts(ref.Polygon, geom.XYZM, []int{16385}, ref.Counter()))
+	}
+	return out
+}
